@@ -14,6 +14,7 @@ from functools import partial
 import numpy as np
 
 from .. import games, seams, simpool
+from .. import prelude
 from ..core import Sim
 
 LEVEL = "exploration"
@@ -103,6 +104,7 @@ def run(sim: Sim) -> None:
     image_model = sim.pick(["fork", "fresh"], "image-model")
     use_pool = bool(sim.choose(2, "use-pool"))
     sim.config.update(image_model=image_model, use_pool=use_pool)
+    prelude.warm_process(sim)
     n_twins = 2 + sim.choose(3, "n-twins")
     twins = []
     for _ in range(n_twins):
